@@ -1,10 +1,12 @@
 //! Driver for pure / helper functions of libp2p-swarm: address translation (C13), ...
+mod rank;
 mod translate;
 
 fn main() {
     let a = vcommon::Args::parse();
     match a.mode.as_str() {
         "translate" => translate::main(&a),
+        "rank" => rank::main(&a),
         m => {
             eprintln!("unknown mode {m}");
             std::process::exit(2)
